@@ -112,7 +112,7 @@ def close(a, b, rtol, scale):
     return abs(a - b) <= rtol * max(scale, abs(a), abs(b))
 
 
-def run_storage_independence(ctx, seed, reps, strata=("first_octant", "octants", "large", "z_axis", "spacelike", "negative_time"), modules=None, rtol=2e-7):
+def run_storage_independence(ctx, seed, reps, strata=("first_octant", "octants", "large", "z_axis", "spacelike", "negative_time", "one_component_off"), modules=None, rtol=2e-7):
     import vector._compute.lorentz
     import vector._compute.planar
     import vector._compute.spatial
@@ -148,16 +148,18 @@ def run_storage_independence(ctx, seed, reps, strata=("first_octant", "octants",
                 for stratum in strata:
                     if stratum in ("spacelike", "negative_time") and pk != "lorentz":
                         continue
+                    if stratum == "one_component_off" and mname not in ("equal", "not_equal", "isclose"):
+                        continue
                     if stratum == "negative_time" and (len(groups[0]) < 3 or groups[0][2] != "TemporalT"):
                         continue          # a negative time is representable with t storage only
-                    for rep in range(reps):
+                    for rep in range(reps * 4 if stratum == "one_component_off" else reps):
                         carts = []
                         for gi, g in enumerate(groups):
                             role = "beta3" if (mname == "boost_beta3" and gi == 1) else "vec"
                             st_ = "octants" if stratum == "z_axis" else stratum
                             if stratum in ("spacelike", "negative_time") and (gi > 0 or role == "beta3"):
                                 st_ = "octants"      # only the first operand is space-like / backward (boosters stay forward time-like)
-                            ct = cart_operand(rng, "octants" if st_ == "negative_time" else st_, len(g), role)
+                            ct = cart_operand(rng, "octants" if st_ in ("negative_time", "one_component_off") else st_, len(g), role)
                             if st_ == "negative_time":
                                 ct = (ct[0], ct[1], ct[2], -ct[3])     # backward time-like: t < -|p|
                             if stratum == "z_axis" and len(g) >= 2 and g[1] == "LongitudinalZ" and (rep + gi) % 2 == 0:
@@ -165,6 +167,24 @@ def run_storage_independence(ctx, seed, reps, strata=("first_octant", "octants",
                             carts.append(ct)
                         if mname in ("equal", "not_equal", "isclose") and rep % 2 == 0 and len(groups) == 2 and stratum not in ("z_axis", "negative_time"):
                             carts[1] = carts[0]
+                        if mname in ("equal", "not_equal", "isclose") and len(groups) == 2 and stratum == "one_component_off":
+                            # the second operand is the first with exactly ONE cylindrical component changed (rho, phi, z or t):
+                            # every single-coordinate comparison term of every storage system is decisive in one of the four
+                            x0, y0, z0, t0 = carts[0]
+                            comps = ("rho", "phi", "z", "t")[:len(groups[0]) + 1]
+                            which = comps[rep % len(comps)]
+                            if which == "rho":
+                                carts[1] = (x0 * 1.5, y0 * 1.5, z0, t0 * 1.5)      # (t scaled too: keeps the vector time-like)
+                                if len(groups[0]) == 3:
+                                    carts[1] = (x0 * 1.5, y0 * 1.5, z0, math.sqrt(t0 * t0 - x0 * x0 - y0 * y0 + 2.25 * (x0 * x0 + y0 * y0)))   # same tau
+                            elif which == "phi":
+                                cs, sn = math.cos(0.7), math.sin(0.7)
+                                carts[1] = (x0 * cs - y0 * sn, x0 * sn + y0 * cs, z0, t0)
+                            elif which == "z":
+                                z1 = -z0 if rep % 2 else z0 * 1.6
+                                carts[1] = (x0, y0, z1, math.sqrt(t0 * t0 - z0 * z0 + z1 * z1) if len(groups[0]) == 3 else t0)          # same tau
+                            else:
+                                carts[1] = (x0, y0, z0, t0 * 1.5)
                         scal = [scalar_for(rng, p, mname) for p in scal_names]
                         if mname == "rotate_quaternion":
                             nrm = math.sqrt(sum(s * s for s in scal)) or 1.0
